@@ -170,7 +170,7 @@ type DialResult struct {
 	// causes observed after the post-transfer idle period (nil = still alive)
 	ClientCauseAfterIdle error
 	ServerCauseAfterIdle error
-	Viols     []Viol
+	Viols                []Viol
 }
 
 // SeriesResult is the outcome of a dial series in one world.
